@@ -158,6 +158,26 @@ def all_constructs():
     return m
 
 
+def deep_br(n=140):
+    """n nested void blocks; in the innermost one a chain of `br_if k` for every depth k (label indices 0..n-1 in their MINIMAL encoding:
+    one byte up to 127 - with bit 6 set from 64 on - two bytes beyond); a counter of the block ends passed tells where a branch landed"""
+    m = Module()
+    body = [('block', None)] * n
+    for k in range(n):
+        body += [('local.get', 0), ('i32.const', k), ('i32.eq',), ('br_if', k)]
+    body += [('i32.const', 1000000), ('local.set', 1)]
+    for j in range(n):
+        body += [('end',), ('local.get', 1), ('i32.const', 1), ('i32.add',), ('local.set', 1)]
+    body += [('local.get', 1)]
+    m.add_func([I32], [I32], [(1, I32)], body, export='f')
+    # the same with unconditional `br` in a br_table-free dispatcher: one function per interesting depth
+    for k in (0, 1, 62, 63, 64, 65, 100, 126, 127, 128, 129, n - 1):
+        if k < n:
+            b2 = [('block', None)] * n + [('br', k)] + [('end',), ('local.get', 0), ('i32.const', 1), ('i32.add',), ('local.set', 0)] * n + [('local.get', 0)]
+            m.add_func([I32], [I32], [], b2, export='br%d' % k)
+    return m
+
+
 def dense_switch(n):
     """what a compiler emits for a dense n-case switch: n nested blocks around one br_table, one arm after each end; plus two small
     functions so that -f splits the module over several files"""
@@ -288,6 +308,26 @@ def shapes(rnd, tier='quick'):
     for dep in ([10, 500, 2000] if q else [10, 500, 2000, 5000]):
         for kind in ('block', 'loop', 'if'):
             out.append(('nesting-%s-%d' % (kind, dep), deep_nesting(dep, kind)))
+    out.append(('deep-br-140', deep_br(140)))
+    # typed blocks / loops / ifs whose body pushes nothing and ends dead, entered at operand-stack depths 0..24, with a consumer after
+    # them - one module per depth (the translator's operand stack then has exactly that history) and one with all of them
+    def dead_typed(depths):
+        mm = Module()
+        for k in depths:
+            for kind in ('loop', 'block', 'if'):
+                body = [('i32.const', j) for j in range(k)]
+                if kind == 'if':
+                    body += [('local.get', 0), ('if', I32), ('unreachable',), ('else',), ('unreachable',), ('end',)]
+                elif kind == 'loop':
+                    body += [('loop', I64), ('br', 0), ('end',), ('i32.wrap_i64',)]
+                else:
+                    body += [('block', F64), ('local.get', 0), ('return',), ('end',), ('i32.trunc_sat_f64_s',)]
+                body += [('local.set', 1)] + [('drop',)] * k + [('local.get', 1)]
+                mm.add_func([I32], [I32], [(1, I32)], body, export='%s%d' % (kind, k))
+        return mm
+    for k in (0, 1, 2, 3, 4, 7, 8, 11, 16, 17, 24):
+        out.append(('dead-typed-body-depth%d' % k, dead_typed([k])))
+    out.append(('dead-typed-body-all', dead_typed(range(0, 25))))
     out.append(('br_table-65000', big_br_table(65000)))
     out.append(('br_table-0', big_br_table(0)))
     for nb in ([0, 1, 17, 18, 19, 65536, 1 << 20] if q else [0, 1, 17, 18, 19, 65536, 1 << 20, 10 << 20]):
